@@ -378,3 +378,9 @@ def run(ctx):
 
 SWEEP = ["concurrent/test_bounded_queue.cpp", "concurrent/test_bounded_queue_press_mpmc.cpp", "concurrent/test_execution_queue.cpp",
          "test_executor.cpp", "logging/test_async_file_appender.cpp"]
+
+
+# name anchors (validated by tools/rename_sweep.py; a vanished name is exit 2, see core.check_anchor_names)
+ANCHORS = {
+    'push_version_for_index': ['^babylon::ConcurrentBoundedQueue(<|$)'],
+}
